@@ -810,6 +810,11 @@ def _run_case_inner(case, src):
     charts, want, want_meta, relabelled = _expectations(sgame, src)
     sfx = "_after_relabel" if relabelled else ""
     keys = _source_keys(sgame, case["base"])
+    if sgame == "bms" and keys is not None:
+        # A BMS chart declares no key count: the lanes in use (as the chart is when it is handed over, e.g. after a
+        # filter) are all there is, so that is the key count a target game has to be able to hold.
+        used = [int(c) for ch in charts for L in (ch.hits, ch.holds) for c in L.column.tolist()]
+        keys = [max(used) + 1] if used else keys
     holdable = keys is not None and all(k in TARGET_KEYS[tgame] for k in keys)
     # a source that gives no key count at all (no notes, or no chart): *ToSM / *ToQua have nothing to derive the mode from
     snap = _snapshot(sgame, src)
